@@ -75,8 +75,9 @@ func init() {
 	}
 }
 
-var c14TaskIDs = []string{"t1", "t2", "t3", "t4"}
-var c14TmplIDs = []string{"T1", "T2"}
+var c14TaskIDs = []string{"t1", "t1x", "t3", "t4"}
+// one template id is a prefix of the other, as are task ids t1 / t1x in storage keys
+var c14TmplIDs = []string{"T1", "T1x"}
 
 func c14Gen(c *Ctx) *c14Scenario {
 	g := c.G
@@ -100,10 +101,20 @@ func c14Gen(c *Ctx) *c14Scenario {
 	tmplHeavy := g.Chance(1, 2)
 	// bursts: requests issued back to back, while start-failure bookkeeping of earlier ones is still in flight
 	burst := g.Chance(1, 6)
+	// one case in six opens with two templates whose ids are prefixes of one another, both with tasks
+	if g.Chance(1, 6) {
+		tmplHeavy = true
+		sc.Ops = append(sc.Ops,
+			c14Op{Kind: "createTemplate", ID: "T1x", Script: 1 + g.Intn(2)},
+			c14Op{Kind: "createTemplate", ID: "T1", Script: 1 + g.Intn(2)},
+			c14Op{Kind: "createTask", ID: "t1x", Template: "T1x", DBRP: "db", Status: []string{"enabled", "disabled"}[g.Intn(2)]},
+			c14Op{Kind: "createTask", ID: "t1", Template: []string{"T1", "T1x"}[g.Intn(2)], DBRP: "db"},
+		)
+	}
 	for i := 0; i < n; i++ {
 		var op c14Op
 		k := g.Intn(12)
-		if tmplHeavy && i == 0 {
+		if tmplHeavy && i == 0 && len(sc.Ops) == 0 {
 			k = 7
 		}
 		switch k {
@@ -147,6 +158,9 @@ func c14Gen(c *Ctx) *c14Scenario {
 			op = c14Op{Kind: "createTemplate", ID: g.Pick(c14TmplIDs), Script: 1 + g.Intn(6)}
 		case 9:
 			op = c14Op{Kind: "patchTemplate", ID: g.Pick(c14TmplIDs), Script: 1 + g.Intn(6)}
+			if g.Chance(1, 5) || tmplHeavy && g.Chance(1, 3) {
+				op = c14Op{Kind: "deleteTemplate", ID: g.Pick(c14TmplIDs)}
+			}
 		case 10:
 			op = c14Op{Kind: "restart"}
 			if tmplHeavy && g.Bool() {
@@ -171,6 +185,7 @@ type c14MTask struct {
 	Template string
 	Vars     string // "", int, float
 	DBRP     string // database of the task's single dbrp; "" = none (a task without dbrps cannot be started)
+	Orphan   bool   // its template has been deleted since: a later template of the same id is another template
 	Running  string // outcome of the last start attempt since the task was last enabled: "" (none or failed), ok, ? (either: see patchTemplate)
 }
 
@@ -274,7 +289,7 @@ func (m *c14Model) apply(op c14Op) bool {
 			if !ok {
 				return false
 			}
-			t.Script, t.Template = ts, id
+			t.Script, t.Template, t.Orphan = ts, id, false
 		} else if op.Script != 0 {
 			t.Script = c14Scripts[op.Script].Text
 			if c14Scripts[op.Script].Invalid {
@@ -338,6 +353,16 @@ func (m *c14Model) apply(op c14Op) bool {
 		}
 		m.Templates[op.ID] = c14TScripts[op.Script].Text
 		return true
+	case "deleteTemplate":
+		delete(m.Templates, op.ID)
+		delete(m.TmplAlt, op.ID)
+		for _, id := range simrt.Keys(m.Tasks) {
+			if t := m.Tasks[id]; t.Template == op.ID {
+				t.Orphan = true // keeps its definition and still names the template
+				m.Tasks[id] = t
+			}
+		}
+		return true
 	case "patchTemplate":
 		oldText, ok := m.Templates[op.ID]
 		if !ok {
@@ -357,12 +382,12 @@ func (m *c14Model) apply(op c14Op) bool {
 			} else if c14ByText[oldText].Implicit != "" {
 				newDBRP = ""
 			}
-			if t.Template == op.ID && t.Enabled && (!c14Valid(ns.Text, t.Vars) || newDBRP == "") {
+			if t.Template == op.ID && !t.Orphan && t.Enabled && (!c14Valid(ns.Text, t.Vars) || newDBRP == "") {
 				m.TmplAlt[op.ID] = ns.Text
 				// rolling back reloads the tasks that had been updated before the failing one: an enabled task of the
 				// template that was not executing may have been given another (successful) start
 				for _, id2 := range simrt.Keys(m.Tasks) {
-					if t2 := m.Tasks[id2]; t2.Template == op.ID && t2.Enabled && t2.Running == "" {
+					if t2 := m.Tasks[id2]; t2.Template == op.ID && !t2.Orphan && t2.Enabled && t2.Running == "" {
 						t2.Running = "?"
 						m.Tasks[id2] = t2
 					}
@@ -373,7 +398,7 @@ func (m *c14Model) apply(op c14Op) bool {
 		m.Templates[op.ID] = ns.Text
 		for _, id := range simrt.Keys(m.Tasks) {
 			t := m.Tasks[id]
-			if t.Template == op.ID {
+			if t.Template == op.ID && !t.Orphan {
 				t.Script = ns.Text
 				switch {
 				case ns.Implicit != "":
@@ -594,6 +619,8 @@ func c14Request(d *harness.Daemon, op c14Op) (int, string) {
 		return d.Do("DELETE", "/kapacitor/v1/tasks/"+op.ID, "")
 	case "createTemplate":
 		return d.Do("POST", "/kapacitor/v1/templates", fmt.Sprintf(`{"id":%q,"type":"stream","script":%q}`, op.ID, c14TScripts[op.Script].Text))
+	case "deleteTemplate":
+		return d.Do("DELETE", "/kapacitor/v1/templates/"+op.ID, "")
 	case "patchTemplate":
 		return d.Do("PATCH", "/kapacitor/v1/templates/"+op.ID, fmt.Sprintf(`{"script":%q}`, c14TScripts[op.Script].Text))
 	}
@@ -915,10 +942,10 @@ func init() {
 	Register(&Prop{
 		ID:  "C14",
 		Run: runC14,
-		Rule: "case = a history of 3-12/25 API requests (create task from a script or a template, patch script/status/id/template/vars/dbrps, delete, create and patch templates; valid and deliberately rejected ones, template updates that fail on one of their tasks, definitions whose start fails, some requests issued back to back) over 4 task ids and 2 template ids, interleaved with clean restarts and data writes, issued against the real HTTP handler; after every acknowledged request and every restart the catalogue read through GET /tasks, /tasks/<id> and /templates is compared with a reference catalogue, and executing with enabled; the history is then re-executed with an injected failure at up to 8 underlying storage writes, and with a crash at up to 8 storage transaction boundaries followed by a restart on a byte copy of the Bolt file and the rest of the history; " +
+		Rule: "case = a history of 3-12/25 API requests (create task from a script or a template, patch script/status/id/template/vars/dbrps, delete, create and patch templates; valid and deliberately rejected ones, template updates that fail on one of their tasks, definitions whose start fails, some requests issued back to back) over 4 task ids and 2 template ids (one id a prefix of another in both sets), template deletion, interleaved with clean restarts and data writes, issued against the real HTTP handler; after every acknowledged request and every restart the catalogue read through GET /tasks, /tasks/<id> and /templates is compared with a reference catalogue, and executing with enabled; the history is then re-executed with an injected failure at up to 8 underlying storage writes, and with a crash at up to 8 storage transaction boundaries followed by a restart on a byte copy of the Bolt file and the rest of the history; " +
 			"non-trivial = every case; distinct = distinct (scenario, interleaving signatures) tuples",
 		Real: []string{"services/task_store Service (Open, HTTP handlers, DAOs, updateAllAssociatedTasks, startTask watcher)", "services/storage IndexedStore + Bolt adapter + real bbolt file", "services/httpd Handler routing", "TaskMaster (StartTask/StopTask/DeleteTask), pipeline construction, tick parser/evaluator/formatter"},
 		Stub: []string{"harness StorageService wrapper: crash = abandon the world at a transaction boundary + byte copy; failing Put/Delete/Commit", "server.Server wiring replaced by the harness (storage, alert, task master, task store opened in server order)"},
-		Assumptions: []string{"a request in flight at a crash may or may not have applied: both catalogues are admissible", "scripts are compared in the formatted form the API returns (tick.Format of the model's script)", "the vocabulary is 5 task scripts and 6 template scripts whose declared vars/dbrps/startability are written down by hand in the model", "batch tasks, template id changes, template deletion and tasks that die while running are not part of the generated histories"},
+		Assumptions: []string{"a request in flight at a crash may or may not have applied: both catalogues are admissible", "scripts are compared in the formatted form the API returns (tick.Format of the model's script)", "the vocabulary is 5 task scripts and 6 template scripts whose declared vars/dbrps/startability are written down by hand in the model", "a template created after the deletion of one with the same id is another template: tasks of the deleted one are not its tasks until a request gives them that template again", "batch tasks, template id changes and tasks that die while running are not part of the generated histories"},
 	})
 }
